@@ -130,4 +130,13 @@ PROPS = {
                                         'a block is identified by the hash the consumer\'s ValidateBlockProposal / ValidateBlockCommitment bind (two blocks with one hash are the consumer\'s collision)',
                                         'the model\'s validProposal is the harness consumer: rejects the blocks listed as bad for this member, checks height and hash'],
     },
+    'C11': {
+        'engines': [{'name': 'world', 'quick_args': ['-n', '60'], 'thorough_args': ['-n', '1200']}],
+        'corr_modules': ['Term'],
+        'trusted_base': ['theorems in coq/props/C11.v about coq/theories/Term.v (proofs in Accept.v, Own.v, TermFacts.v)'],
+        'assumptions': COMMON_ASSUME + ['sender and receiver use the same committee, height and instance id',
+                                        'signature verification is a function of (signed bytes, signer); the byte-level identity of re-encoded votes and proofs is C20 (canonical encodings, F11/F11b repaired)',
+                                        'for a NEW_VIEW without locks: the receiver\'s ValidateBlockProposal accepts the correct leader\'s fresh block and the receiver\'s context for the view is live (otherwise rejecting is the specified behaviour)'],
+        'notes': ['the sender-side statements for VIEW_CHANGE and NEW_VIEW are about the step that emits the message (the timeout step, the election step) from any state satisfying the storage invariants, which hold after every event sequence (trun_sinv, trun_vinv)'],
+    },
 }
